@@ -48,6 +48,9 @@ enum Op {
     /// a breakpoint stops it inside the first — hidden — frame after `iters` loop passes, the host switches to
     /// one frame per call and resumes: the frame then delivered was drawn from unchanged memory
     RunStop(usize, usize),
+    /// the host saves an SNA snapshot while SP points into the display file; a save is not one of the writers the
+    /// property names, but whatever it does to the display file, the picture has to follow
+    SaveSna(u16),
 }
 
 impl Op {
@@ -79,6 +82,7 @@ impl Op {
             }
             Op::Frame => "frame".into(),
             Op::RunStop(n, k) => format!("runstop {:x} {:x}", n, k),
+            Op::SaveSna(sp) => format!("savesna {:04x}", sp),
             Op::Probe(t, a, v) => format!("probe {:x} {:04x} {:02x}", t, a, v),
         }
     }
@@ -117,6 +121,7 @@ impl Op {
             }
             ["frame"] => Op::Frame,
             ["runstop", a, b] => Op::RunStop(n(a)?, n(b)?),
+            ["savesna", a] => Op::SaveSna(n(a)? as u16),
             ["probe", t, a, v] => Op::Probe(n(t)?, n(a)? as u16, n(v)? as u8),
             _ => return None,
         })
@@ -141,6 +146,7 @@ impl Op {
             Op::Poke(_) => "poke",
             Op::Frame => "frame",
             Op::RunStop(..) => "runstop",
+            Op::SaveSna(..) => "savesna",
             Op::Probe(..) => "probe",
         }
     }
@@ -907,6 +913,30 @@ impl<'a> Sim<'a> {
                 self.model_op("status");
             }
             Op::Frame => self.frame(out),
+            Op::SaveSna(sp) => {
+                {
+                    let cpu = self.e.verif_cpu();
+                    cpu.regs.set_sp(*sp);
+                    cpu.regs.set_pc(0x81A5);
+                }
+                let before: Vec<u8> = (0x4000u16..0x5B00).map(|a| self.e.peek(a)).collect();
+                let _ = crate::c13::snap::save_sna(&mut self.e);
+                let mut changed = 0;
+                for (i, b) in before.iter().enumerate() {
+                    let a = 0x4000 + i as u16;
+                    let v = self.e.peek(a);
+                    if v != *b {
+                        // the display file changed under the host's hands: from now on this is what the ULA sees
+                        changed += 1;
+                        self.note_addr(a, v, "host-save");
+                        let _ = self.model.ask(&format!("w {:04x} {:02x} 0", a, v));
+                        self.dirty = true;
+                        self.spec_cache = None;
+                    }
+                }
+                out.count("savesna", if changed > 0 { "display file changed by the save" } else { "display file untouched" });
+                self.model_op("status");
+            }
             Op::RunStop(nf, iters) => {
                 // LD BC,iters ; loop: DEC BC ; LD A,B ; OR C ; JR NZ,loop ; bp: JR $
                 let it = (*iters).clamp(1, 0xFFFF) as u16;
@@ -1444,6 +1474,12 @@ phases by frame number mod 32, beam (writer, byte kind, before/after/margin, dt/
                 } as usize;
                 ops.push(Op::RunStop(2 + ((k + round) % 2) as usize, iters));
                 ops.push(Op::Frame);
+                if !(m128 && bank == 7) {
+                    // a host snapshot save with the stack inside the displayed file
+                    ops.push(Op::SaveSna(0x4002 + g.rng.below(0x1AF0) as u16));
+                    ops.push(Op::Frame);
+                    ops.push(Op::Frame);
+                }
             }
             cases.push((format!("runstop m128={} bank={}", m128, bank), Case { m128, ops }, 1));
         }
